@@ -48,7 +48,7 @@ inductive Exc
 
 inductive Outcome
   /-- tool returned; `request.login = login`; the page handler runs -/
-  | admit (login : Str)
+  | grant (login : Str)
   /-- `HTTPError(401)` with `WWW-Authenticate: challenge` -/
   | unauthorized (challenge : Str)
   /-- `HTTPError(400)` -/
@@ -207,7 +207,7 @@ def basicAuth (P : Prims) (cfg : BasicCfg) (hdr : Option Str) : Outcome :=
           match split1 ':' decoded with
           | none => .badRequest                             -- ValueError in the tuple unpacking
           | some (username, password) =>
-            if checkpasswordDict cfg.store username password then .admit username
+            if checkpasswordDict cfg.store username password then .grant username
             else .unauthorized (basicChallenge cfg)
       else .unauthorized (basicChallenge cfg)
 
@@ -422,6 +422,6 @@ def digestAuth (P : Prims) (cfg : DigestCfg) (method : Str) (now : Int) (hdr : O
       | .ok digest =>
         if digest ≠ fmtOpt a.response then respond401 P cfg now false
         else if isNonceStale (fmtOpt a.nonce) 600 now then respond401 P cfg now true
-        else .admit (fmtOpt a.username)
+        else .grant (fmtOpt a.username)
 
 end CpModel.Auth
